@@ -443,6 +443,9 @@ func (o *c07Obs) After(w *wWorld, st *wStep) *kit.Viol {
 		newRow := !hadA || (a.deleted && hasB && !b.deleted)
 		if hasB && (!hadA || a.given != b.given) && !strings.HasPrefix(topic, "chn") {
 			actorRow, actorSub := pre[subKey{grpTopic, actor}]
+			if actor != target && o.stale(grpTopic, actor, actorRow, actorSub) {
+				continue // the actor's own cached mode is stale (C08): its rights are not judged here
+			}
 			actorMode := actorRow.want & actorRow.given
 			if !actorSub || actorRow.deleted {
 				actorMode = 0
